@@ -459,6 +459,8 @@ def _check(prop, tier, replay, spec, seed, jobs, t0, scratch, env, known):
         par.update(st.get(tier, {}))
         if par.get('skip'):
             continue
+        if os.environ.get('RSV_BUDGET_SCALE'):  # debugging aid: smoke-run a tier with a fraction of its wall-clock budgets
+            par['time_budget'] = max(20, int(par.get('time_budget', 600) * float(os.environ['RSV_BUDGET_SCALE'])))
         if st.get('engine') == 'mpiexec':
             import e5
             rep = e5.run_e5_stage(prop, st, par, seed, jobs, scratch, env)
